@@ -65,7 +65,7 @@ def run_traces(ctx, name, drv_args, timeout=1500, sub="req"):
     return v, st, reqinfo, rawev
 
 
-def report(ctx, v, reqinfo, own, sample_events=None, tag=None):
+def report(ctx, v, reqinfo, own, sample_events=None, tag=None, own_tags=()):
     """Turns the `bad` records of a validated trace into verdicts for property `own`."""
     others = []
     for b in v["bad"]:
@@ -86,7 +86,7 @@ def report(ctx, v, reqinfo, own, sample_events=None, tag=None):
         rec = {"violation": b, "request": info, "events": ctxev}
         if b["p"] == "HARNESS":
             raise core.Inconclusive("trace inconsistent with the harness model: %s" % rec)
-        if b["p"] == own:
+        if b["p"] == own or b["p"] in own_tags:
             ctx.violation(key, "%s (request %s)" % (b["what"], info), replay=rec)
         else:
             others.append({"key": key, "what": b["what"]})
@@ -97,7 +97,12 @@ def design_check(ctx, thorough):
     """Design-level model (goroutines, locks): deadlock freedom, at-most-one reply, termination."""
     ctx.tlc_must_pass("RequestMC", "RequestMC_quick.cfg", timeout=1500, name="design-mc")
     ctx.tlc_must_pass("RequestMC", "RequestMC_live.cfg", timeout=1500, workers=8, name="design-liveness")
+    # refinement: every behaviour of the design model, projected onto the observable events, is accepted by the
+    # observable-level specification that validates the real traces (no false alarm is built into that specification)
+    ctx.tlc_must_pass("RequestRefine", "RequestRefine_quick.cfg", timeout=1500, name="design-refines-observable")
     if thorough:
+        for c in ("RequestRefine_thorough.cfg", "RequestRefine_thorough_3h.cfg"):
+            ctx.tlc_must_pass("RequestRefine", c, timeout=3400, name="design-refines-observable")
         for c in ("RequestMC_thorough_3h.cfg", "RequestMC_thorough_3r.cfg"):
             ctx.tlc_must_pass("RequestMC", c, timeout=3400, name="design-mc")
         # sensitivity: with the pinned tree's behaviour the model must exhibit the hazards
@@ -169,7 +174,7 @@ def write_scripts(path, scs):
             f.write(json.dumps({k: s[k] for k in ("id", "idem", "outcomes") if k in s} | ({"kind": s["kind"]} if "kind" in s else {})) + "\n")
 
 
-def run_property(ctx, own, plans, scenario_filter=None, nscen=700, extra_cov=None, design=False):
+def run_property(ctx, own, plans, scenario_filter=None, nscen=700, extra_cov=None, design=False, own_tags=()):
     """plans: list of (name, driver args without -in, use_scripts: bool)."""
     thorough = ctx.tier == "thorough"
     rnd = random.Random(ctx.seed)
@@ -198,7 +203,7 @@ def run_property(ctx, own, plans, scenario_filter=None, nscen=700, extra_cov=Non
         nreq += len(reqinfo)
         st.pop("goroutine_dump", None)
         stats_all.append({name: st})
-        others += report(ctx, v, reqinfo, own, v["events"], tag=tag)
+        others += report(ctx, v, reqinfo, own, v["events"], tag=tag, own_tags=own_tags)
         if not samples:
             samples = [e for e in v["events"] if e["ev"] != "GC"][:30]
             if not v["bad"]:
@@ -223,3 +228,24 @@ def run_property(ctx, own, plans, scenario_filter=None, nscen=700, extra_cov=Non
     }
     cov.update(extra_cov or {})
     ctx.write_evidence("model_checking", cov)
+
+
+def override_stage(ctx, own, thorough):
+    """Pipelined and retried writes under a write-consistency override (every write is re-encoded by the proxy): the
+    recorded trace is validated against TraceRequestObs; a request that reaches the backend with another request's
+    body shows up as a reply carrying another request's answer / a request taken twice, and is reported under `own`."""
+    n = "3000" if thorough else "500"
+    v, st, reqinfo, _ = run_traces(ctx, "override-pipelined", ["-random", n, "-nodes", "3", "-numconns", "1", "-clients", "4", "-workers", "8",
+                                                                "-round", "250", "-delay", "4", "-override", "-okbias", "2", "-nodrops"])
+    keys = []
+    for b in v["bad"]:
+        info = reqinfo.get(b["r"], {})
+        if b["p"] == "HARNESS":
+            raise core.Inconclusive("trace inconsistent with the harness model: %s" % b)
+        if b["p"] in ("C02", "C01", "C04"):
+            key = "%s:override-pipelined:%s" % (own.lower(), slug(b["what"]))
+            ctx.violation(key, "with a consistency override configured and requests pipelined/retried: %s (request %s)" % (b["what"], info),
+                          replay={"violation": b, "request": info})
+            keys.append(key)
+    ctx.notes["override_pipelined"] = {"requests": len(reqinfo), "events": v["total"], "violations": len(keys)}
+    return keys
